@@ -1,6 +1,126 @@
-import RucteModel
+import RucteModel.Tpl
+import RucteProofs.Layout
 
-/-! # C15 — placeholder: theorems are added as they are proved. -/
+/-!
+# C15 — layout and template comments between syntactic elements change nothing
+
+Proved here: at every *layout slot* of the grammar (a call of `spacelike`, or of `multispace0`
+inside the declaration) **any** admissible layout — any sequence of white-space runs and
+`@* … *@` comments — is consumed completely and leaves the parser in exactly the state it would
+be in with any other admissible layout (in particular with none).  The composition over all the
+slots of a whole template (the K theorem `layout_irrelevant` of the design) is *not* proved; it
+is covered on every run by the metamorphic oracle of the `parse` suite (canonical print vs.
+perturbed prints of the same source tree give byte-identical code and the documented tree).
+-/
 namespace Ructe.C15
-theorem placeholder : True := trivial
+open Nom
+
+/-- one piece of insignificant material -/
+inductive Item where
+  | ws (bytes : Bytes)          -- a non-empty run of space, tab, CR, LF
+  | comment (body : Bytes)      -- `@*` body `*@`
+
+def Item.print : Item → Bytes
+  | .ws b => b
+  | .comment b => [64, 42] ++ b ++ [42, 64]
+
+/-- a comment body must not contain the terminator: no `*@` inside `body ++ "*"` -/
+def Item.ok : Item → Bool
+  | .ws b => !b.isEmpty && b.all isSpace
+  | .comment b => noStarAt (b ++ [42])
+
+def printLayout (l : List Item) : Bytes := (l.map Item.print).flatten
+
+/-- what may follow a layout slot: anything that does not itself start a piece of layout -/
+def StopsLayout (rest : Bytes) : Prop :=
+  (∀ b r, rest = b :: r → isSpace b = false) ∧ ¬ ∃ r, rest = 64 :: 42 :: r
+
+/-- a comment is consumed up to its first terminator -/
+theorem comment_complete (body rest : Bytes) (h : noStarAt (body ++ [42]) = true) :
+    comment ([64, 42] ++ body ++ [42, 64] ++ rest) = .ok rest () := by
+  have := comment_complete' body rest h
+  simpa using this
+
+/-- **layout slot**: `spacelike` consumes any admissible layout entirely … -/
+theorem spacelike_complete (l : List Item) (hl : ∀ i ∈ l, i.ok = true) (rest : Bytes) (hr : StopsLayout rest) :
+    spacelike (printLayout l ++ rest) = .ok rest () := by
+  have hstop : SAbsorbs rest rest :=
+    sabsorbs_stop rest hr.1 (fun r h => hr.2 ⟨r, h⟩)
+  have hspan : (span isSpace rest).2 = rest := by rw [span_stop _ _ hr.1]
+  -- invariant robust to adjacent white-space runs merging into one `multispace1` match
+  have key : SAbsorbs rest (printLayout l ++ rest) ∧
+      SAbsorbs rest (span isSpace (printLayout l ++ rest)).2 := by
+    induction l with
+    | nil => simpa [printLayout, hspan] using hstop
+    | cons i l ih =>
+      have ih := ih (fun j hj => hl j (List.mem_cons_of_mem _ hj))
+      have hi := hl i List.mem_cons_self
+      cases i with
+      | ws b =>
+        simp only [Item.ok, Bool.and_eq_true, Bool.not_eq_true', List.isEmpty_eq_false_iff] at hi
+        have e : printLayout (Item.ws b :: l) ++ rest = b ++ (printLayout l ++ rest) := by
+          simp [printLayout, Item.print]
+        rw [e]
+        refine ⟨sabsorbs_ws _ _ _ hi.1 hi.2 ih.2, ?_⟩
+        rw [span_all _ _ _ hi.2]
+        exact ih.2
+      | comment b =>
+        simp only [Item.ok] at hi
+        have e : printLayout (Item.comment b :: l) ++ rest =
+            64 :: 42 :: (b ++ 42 :: 64 :: (printLayout l ++ rest)) := by
+          simp [printLayout, Item.print]
+        rw [e]
+        have hA := sabsorbs_comment rest b _ hi ih.1
+        refine ⟨hA, ?_⟩
+        rw [span_cons_false _ _ _ (by decide)]
+        exact hA
+  obtain ⟨vs, hvs⟩ := key.1 _ [] (Nat.lt_succ_self _)
+  have : many0 spaceStep (printLayout l ++ rest) = .ok rest vs := hvs
+  simp [spacelike_eq, value, pmap, this]
+
+/-- … so any two admissible layouts at a slot are indistinguishable to the rest of the parse -/
+theorem layout_irrelevant_at_slot (l₁ l₂ : List Item) (h₁ : ∀ i ∈ l₁, i.ok = true) (h₂ : ∀ i ∈ l₂, i.ok = true)
+    (rest : Bytes) (hr : StopsLayout rest) :
+    spacelike (printLayout l₁ ++ rest) = spacelike (printLayout l₂ ++ rest) ∧
+    spacelike (printLayout l₁ ++ rest) = spacelike rest := by
+  have e1 := spacelike_complete l₁ h₁ rest hr
+  have e2 := spacelike_complete l₂ h₂ rest hr
+  have e0 := spacelike_complete [] (by simp) rest hr
+  simp only [printLayout, List.map_nil, List.flatten_nil, List.nil_append] at e0
+  exact ⟨by rw [e1, e2], by rw [e1, e0]⟩
+
+/-- the white-space-only slots of the declaration (`multispace0` after `(`, after `,`, before `)`) -/
+theorem multispace0_complete (ws rest : Bytes) (hw : ws.all isSpace = true) (hr : ∀ b r, rest = b :: r → isSpace b = false) :
+    multispace0 (ws ++ rest) = .ok rest ws := by
+  simp [multispace0, span_all _ _ _ hw, span_stop _ _ hr]
+
+/-- `spacelike` never fails and never panics: a slot cannot make a template be rejected -/
+theorem spacelike_total (inp : Bytes) : ∃ rest, spacelike inp = .ok rest () := by
+  obtain ⟨r, vs, h, _⟩ := many0_total good_spaceStep inp
+  exact ⟨r, by simp [spacelike_eq, value, pmap, h]⟩
+
+/-- soundness: what `spacelike` skips is a prefix of the input (nothing else is touched) -/
+theorem spacelike_sound (inp rest : Bytes) (h : spacelike inp = .ok rest ()) : ∃ pre, inp = pre ++ rest := by
+  exact sfx_spacelike inp rest () h
+
+/-- the pinned `comment_tail` did not close a comment ending in an even run of stars at its
+terminator: `@** doc **@B` is not a complete comment followed by `B` (finding #2, machine-checked) -/
+def commentTailPinned : Parser Unit :=
+  preceded
+    (many0 (alt [value () (isNot [42]), value () (preceded (tag [42]) (noneOf [64]))]))
+    (value () (tag [42, 64]))
+
+theorem pinned_comment_counterexample :
+    (match commentTailPinned [42, 32, 100, 32, 42, 42, 64, 66] with | .ok r _ => r | _ => [0]) ≠ [66] ∧
+    commentTail [42, 32, 100, 32, 42, 42, 64, 66] = .ok [66] () := by
+  constructor
+  · decide +kernel
+  · exact commentTail_complete [42, 32, 100, 32, 42] [66] (by decide)
+
+example : (Item.comment [42, 32, 100, 32, 42]).ok = true := by decide   -- `@** d **@`
+example : StopsLayout [60, 112, 62] := by
+  constructor
+  · intro b r h; cases h; decide
+  · intro ⟨r, h⟩; cases h
+
 end Ructe.C15
